@@ -73,6 +73,10 @@ func VH_C09() {
 		attrs = Attrs{NewAttr("e", errors.New("boom")), NewAttr("k", "v")}
 	case 4:
 		attrs = Attrs{NewAttr("a", 1), NewAttr("time", vTime0())} // the attribute keyed "time" has its own rendering path
+	case 5:
+		attrs = Attrs{NewAttr("a", 1), NewAttr("z", errors.New("boom"))} // an error as the LAST attribute
+	case 6:
+		attrs = Attrs{NewAttr("z", vC14MakeErr())} // an error carrying stack information
 	}
 	if sev == cNoColor || sev == Level(77) {
 		// a severity without an entry in the colour table
